@@ -131,7 +131,8 @@ class HangDetected(BaseException):
 
 
 class StubQueue:
-    def get(self, timeout=None):
+    def get(self, block=True, timeout=None):
+        # the signature of multiprocessing.Queue.get: a positional number is `block`, not the timeout
         e = ENV[0]
         e.gets += 1
         if e.sched.script is not None and e.gets > 20000:
@@ -139,6 +140,11 @@ class StubQueue:
         procs = [p for p in e.procs if p.q is self and p.started]
         pend = [p for p in procs if p.deliverable()]
         must = [p for p in pend if p.dead]
+        if block and timeout is None:
+            # blocks until an item arrives; with nothing left to arrive it blocks for ever
+            if not pend:
+                raise HangDetected()
+            must = pend
         opts = len(pend) + (0 if must else 1)
         if opts == 0:
             raise real_queue.Empty
@@ -225,7 +231,22 @@ class Out:
         self.parts.append(s)
 
 
-def install(R, GA, nrec, faults, sched):
+def record_shape(i, salt):
+    """records differ in what the worker does with them: 0 = short, realigned; 1 = more than 60000 read bases (passed through) without
+    optional fields; 2 = passed through, three optional fields"""
+    return (i + salt) % 3
+
+
+def make_record(GA, i, salt):
+    sh = record_shape(i, salt)
+    if sh == 0:
+        return GA.Alignment("r%d" % i, 10, 0, 10, "+", ">a", 10, 0, 10, 10, 10, 60, True, "10=", tags={"cg:Z:": "10="})
+    if sh == 1:
+        return GA.Alignment("r%d" % i, 70010, 5, 70005, "+", ">a", 70010, 0, 70000, 10, 10, 60, True, "", tags={})
+    return GA.Alignment("r%d" % i, 70010, 5, 70005, "+", ">a", 70010, 0, 70000, 10, 10, 60, True, "70000=", tags={"NM:i:": "0", "cg:Z:": "70000=", "zz:Z:": "x"})
+
+
+def install(R, GA, nrec, faults, sched, salt=0):
     """rebinding of the environment of the realign module R (instrumented twin or plain module)"""
     ENV[0] = Env(sched, faults)
     R.mp = make_mp(faults)
@@ -239,7 +260,7 @@ def install(R, GA, nrec, faults, sched):
 
         def read_file(self):
             for i in range(nrec):
-                yield GA.Alignment("r%d" % i, 10, 0, 10, "+", ">a", 10, 0, 10, 10, 10, 60, True, "10=", tags={"cg:Z:": "10="})
+                yield make_record(GA, i, salt)
 
         def close(self):
             pass
@@ -250,7 +271,7 @@ def install(R, GA, nrec, faults, sched):
 def run_schedule(R, GA, W, B, nrec, T, faults, script=None):
     """returns (outcome, names written, trace, events, faulty).  outcome: 'ok' | 'exit:<code>' | 'exc:<type>: msg' | 'idle'"""
     sched = Scripted(script, idle_budget=T)
-    install(R, GA, nrec, faults, sched)
+    install(R, GA, nrec, faults, sched, salt=W + B)
     os.environ["GAFTOOLS_VERIF_BATCH_SIZE"] = str(B)
     os.environ["MARSCHALL_LAB_GAFTOOLS_VERIF"] = "1"
     out = Out()
@@ -267,7 +288,8 @@ def run_schedule(R, GA, W, B, nrec, T, faults, script=None):
         outcome = "exc:%s: %s" % (type(e).__name__, str(e)[:120])
     names = []
     for p in out.parts:
-        names.append(p.split("\t")[0] if isinstance(p, str) else "?")
+        ok = isinstance(p, str) and p.endswith("\n") and p.count("\t") >= 11 and p.count("\n") == 1
+        names.append(p.split("\t")[0] if ok else "malformed:%r" % (p,))
     # multiprocessing joins non-daemon children when the interpreter exits; a child that still has results to deliver
     # blocks in its queue feeder thread once the pipe is full, because nobody reads the queue any more
     LIVE_PENDING[0] = outcome.startswith("exit:") and any(
